@@ -47,8 +47,20 @@ func Plan(prop, tier string) []Mode {
 			Mode{Name: "par", Build: "race", Cases: n, Batch: b, Par: 8, Procs: []int{4, 16, 2, 8}, WatchdogS: 300, HangIs: "inconclusive"},
 			Mode{Name: "par", Build: "plain", Cases: n, Batch: b, Par: 8, Procs: []int{16, 4, 2, 8}, WatchdogS: 300, HangIs: "inconclusive"})
 	}
+	if readersProps[prop] && len(ms) > 0 {
+		q := tier != "thorough"
+		n, b := int64(3000), int64(150)
+		if q {
+			n, b = 64, 8
+		}
+		ms = append(ms, Mode{Name: "readers", Build: "race", Cases: n, Batch: b, Par: 8, Procs: []int{4, 16, 2, 8}, WatchdogS: 120, HangIs: "inconclusive"})
+	}
 	return ms
 }
+
+// readersProps: sequential containers that get mode "readers" (one unmodified object read
+// by several goroutines at once, race build) - see props/readers.go. C14 has its own.
+var readersProps = map[string]bool{"C01": true, "C06": true, "C07": true, "C08": true, "C11": true, "C16": true}
 
 func plan0(prop, tier string) []Mode {
 	q := tier != "thorough"
